@@ -200,4 +200,17 @@ theorem C18_cookie_flags (c : CookieCfg) (name host : String) :
     (c.domain = "" → (makeCookie c name host).domain = host) ∧ (c.domain ≠ "" → (makeCookie c name host).domain = c.domain) := by
   refine ⟨rfl, rfl, rfl, ?_, ?_⟩ <;> intro h <;> simp [makeCookie, h]
 
+/-- Tie (T1): the header middlewares — call/branch/store skeletons regenerated from the source on every run; the expectations below are
+what the model in this file transliterates. A structural edit of any of these functions breaks this theorem and sends the
+check searching for a failing input. -/
+theorem C18_wiring :
+    Sso.Generated.skel_proxy_setHeaders =
+      ["func{", "range{", "call:Header", "call:Set", "}", "call:ServeHTTP", "}", "call:HandlerFunc", "return"] ∧
+    Sso.Generated.skel_proxy_setSecurityHeaders =
+      ["call:setHeaders", "return"] ∧
+    Sso.Generated.skel_proxy_setResponseHeaderOverrides =
+      ["call:setHeaders", "return"] ∧
+    Sso.Generated.skel_auth_setHeaders =
+      ["func{", "range{", "call:Header", "call:Set", "}", "call:ServeHTTP", "}", "call:HandlerFunc", "return"] := by decide
+
 end Sso.Harden
